@@ -71,7 +71,7 @@ def methods_of(prog, cls):
 
 def written_fields(prog, cls, fields):
     out = {}
-    dids = {fl["did"]: n for n, fl in fields.items()}
+    dids = {fl["qn"]: n for n, fl in fields.items()}   # qualified names: decl ids are per translation unit
     for f in methods_of(prog, cls):
         if not f.name.split("::")[-1].startswith("configure"):
             continue
@@ -94,14 +94,14 @@ def written_fields(prog, cls, fields):
                 t = core(tg)
                 while t is not None and t.get("k") == "call" and "obj" in t:
                     t = core(t.child("obj"))
-                if t is not None and t.get("k") == "member" and t.get("did") in dids:
-                    out.setdefault(dids[t["did"]], f)
+                if t is not None and t.get("k") == "member" and t.get("qn") in dids:
+                    out.setdefault(dids[t["qn"]], f)
     return out
 
 
 def folded_fields(prog, cls, fields):
     """(own getSignature or None, fields folded by the signature this class ends up with)"""
-    dids = {fl["did"]: n for n, fl in fields.items()}
+    dids = {fl["qn"]: n for n, fl in fields.items()}   # qualified names: decl ids are per translation unit
     own = None
     out = set()
     c = cls
@@ -114,15 +114,15 @@ def folded_fields(prog, cls, fields):
             if own is None and c == cls:
                 own = sig[0]
             for n in sig[0].nodes:
-                if n.get("k") == "member" and n.get("did") in dids:
-                    out.add(dids[n["did"]])
+                if n.get("k") == "member" and n.get("qn") in dids:
+                    out.add(dids[n["qn"]])
                 # accessor calls on this (getInputs()/getOutputs()) count as reading the field they return
                 if n.get("k") == "call" and n.get("ck") == "member" and core(n.child("obj")) is not None and core(n.child("obj")).get("k") == "this":
                     g = prog.functions.get(n.get("fk"))
                     if g is not None and len(g.nodes) < 12:
                         for m in g.nodes:
-                            if m.get("k") == "member" and m.get("did") in dids:
-                                out.add(dids[m["did"]])
+                            if m.get("k") == "member" and m.get("qn") in dids:
+                                out.add(dids[m["qn"]])
             base_calls = [x for x in sig[0].calls() if x.get("qualified") and (x.get("fn") or "").endswith("::getSignature")]
             if base_calls:
                 nxt = base_calls[0]["fn"].rsplit("::", 1)[0]
@@ -242,6 +242,20 @@ def run(ctx):
                 origin = origin.child("e")
             ot = origin.ctype().replace("const ", "") if origin is not None else "?"
             site = "%s::getSignature|combine(%s)" % (cls, expr_str(origin)[:30])
+            inst = prog.functions.get(c.get("fk"))
+            if inst is not None and "combine<" in inst.key:
+                # list overload: the element fold inside the instantiation must be lossless too
+                bad_el = None
+                for ic in inst.calls("CommandSignature::combine"):
+                    ipt = inst.db_types[ic["pt"][0]].replace("const ", "").replace("&", "").strip()
+                    io = arg_nodes(ic)[0]
+                    while io is not None and io.get("k") == "cast":
+                        io = io.child("e")
+                    iot = io.ctype().replace("const ", "") if io is not None else "?"
+                    if ipt == "bool" and iot != "bool":
+                        bad_el = iot
+                r.check(bad_el is None, site, "list of %s" % pt[:30], "elements of type '%s' are folded through combine(bool): every element hashes as true/false" % bad_el, f, c)
+                continue
             if pt == "bool":
                 r.check(ot == "bool", site, "bool", "value of type '%s' is folded through combine(bool): only zero/non-zero reaches the hash" % ot, f, c)
             else:
